@@ -8,7 +8,7 @@ use crate::prng::Rng;
 use crate::scenario::*;
 
 /// Flat, deliberately generous step budget (simulated time) per thread.
-pub const FUEL: u64 = 1_000_000_000;
+pub const FUEL: u64 = 2_000_000_000;
 
 fn nest_doc(rng: &mut Rng, quick: bool) -> (DocSpec, &'static str) {
     // (open, close, max depth, label)
